@@ -12,6 +12,12 @@ use serde_json::{json, Value};
 const LAYOUTS: [Layout; 3] = [Layout::Classic, Layout::XrefStream, Layout::Incremental];
 
 /// (object index, path) of every reference and numeric node of the rich document
+fn array_sites() -> Vec<(usize, richdoc::Path)> {
+    let objs = richdoc::objects();
+    let mut out = Vec::new();
+    for (i, (_, o)) in objs.iter().enumerate() { let mut a = Vec::new(); richdoc::collect_arrays(o, &mut Vec::new(), &mut a); for p in a { out.push((i, p)); } }
+    out
+}
 fn sites() -> (Vec<(usize, richdoc::Path)>, Vec<(usize, richdoc::Path)>) {
     let objs = richdoc::objects();
     let (mut refs, mut nums) = (Vec::new(), Vec::new());
@@ -129,7 +135,7 @@ fn specials_plain() -> Vec<(String, Vec<u8>)> {
     // --- encryption dictionaries
     let enc = |items: Vec<(&str, Obj)>| -> Vec<u8> { base(vec![(4, dict(items))], vec![("Encrypt", rf(4)), ("ID", arr(vec![st("0123456789abcdef"), st("0123456789abcdef")]))]) };
     let o32 = Obj::Str(vec![7u8; 32]);
-    for (v, r, len) in [(1i64, 2i64, 40i64), (2, 3, 0), (2, 3, -8), (2, 3, 8), (2, 3, 2048), (2, 3, 2147483647), (4, 4, 128), (5, 5, 256), (5, 6, 256), (0, 0, 40), (3, 3, 40), (6, 7, 40), (-1, -1, -1), (2147483647, 2147483647, 128)] {
+    for (v, r, len) in [(1i64, 2i64, 40i64), (2, 3, 0), (2, 3, -8), (2, 3, 8), (2, 3, 2048), (2, 3, 2147483647), (2, 3, 129), (2, 3, 136), (2, 3, 192), (2, 3, 256), (2, 3, 264), (1, 2, 136), (1, 2, 256), (4, 4, 128), (5, 5, 256), (5, 6, 256), (0, 0, 40), (3, 3, 40), (6, 7, 40), (-1, -1, -1), (2147483647, 2147483647, 128)] {
         out.push((format!("encrypt-v{}-r{}-len{}", v, r, len), enc(vec![("Filter", name("Standard")), ("V", Obj::Int(v)), ("R", Obj::Int(r)), ("Length", Obj::Int(len)), ("O", o32.clone()), ("U", o32.clone()), ("P", Obj::Int(-1))])));
     }
     for (label, o, u) in [("encrypt-empty-ou", Obj::Str(vec![]), Obj::Str(vec![])), ("encrypt-short-ou", Obj::Str(vec![1]), Obj::Str(vec![2; 5])), ("encrypt-long-ou", Obj::Str(vec![3; 200]), Obj::Str(vec![4; 200]))] {
@@ -139,6 +145,11 @@ fn specials_plain() -> Vec<(String, Vec<u8>)> {
             if v >= 4 { items.push(("CF", dict(vec![("StdCF", dict(vec![("CFM", name(if v == 5 { "AESV3" } else { "AESV2" })), ("Length", Obj::Int(if r == 6 { 0 } else { 16 }))]))]))); items.push(("StmF", name("StdCF"))); items.push(("StrF", name("StdCF"))); }
             out.push((format!("{}-v{}r{}", label, v, r), enc(items)));
         }
+    }
+    // crypt-filter key lengths between the 16 bytes the digests provide and the 32 an AES-256 key has
+    for (cfm, len) in [("V2", 17i64), ("V2", 24), ("V2", 32), ("V2", 33), ("AESV2", 17), ("AESV2", 32), ("V2", 0), ("V2", -1)] {
+        out.push((format!("encrypt-v4-cf-{}-len{}", cfm, len), enc(vec![("Filter", name("Standard")), ("V", Obj::Int(4)), ("R", Obj::Int(4)), ("Length", Obj::Int(128)), ("O", o32.clone()), ("U", o32.clone()), ("P", Obj::Int(-1)),
+            ("CF", dict(vec![("StdCF", dict(vec![("CFM", name(cfm)), ("Length", Obj::Int(len))]))])), ("StmF", name("StdCF")), ("StrF", name("StdCF"))])));
     }
     out.push(("encrypt-no-id".into(), base(vec![(4, dict(vec![("Filter", name("Standard")), ("V", Obj::Int(1)), ("R", Obj::Int(2)), ("O", o32.clone()), ("U", o32.clone()), ("P", Obj::Int(-1))]))], vec![("Encrypt", rf(4))])));
     out.push(("encrypt-ref-self".into(), base(vec![(4, rf(4))], vec![("Encrypt", rf(4)), ("ID", arr(vec![st("a"), st("b")]))])));
@@ -268,17 +279,18 @@ fn specials_plain() -> Vec<(String, Vec<u8>)> {
 }
 
 /// Case table: [single-ref re-pointings] ++ [single boundary numbers] ++ [specials] ++ seeded pairs.
-pub struct Table { refs: Vec<(usize, richdoc::Path)>, nums: Vec<(usize, richdoc::Path)>, targets: Vec<u32>, specials: Vec<(String, Vec<u8>)>, pub n_ref: u64, pub n_num: u64, pub n_spec: u64 }
+pub struct Table { refs: Vec<(usize, richdoc::Path)>, nums: Vec<(usize, richdoc::Path)>, targets: Vec<u32>, specials: Vec<(String, Vec<u8>)>, arrays: Vec<(usize, richdoc::Path)>, pub n_ref: u64, pub n_num: u64, pub n_spec: u64, pub n_arr: u64 }
 pub fn table() -> Table {
     let (refs, nums) = sites();
     let mut targets: Vec<u32> = richdoc::objects().iter().map(|(n, _)| *n).collect();
     targets.extend([0, 9999]);
     let specials = specials();
-    let (n_ref, n_num, n_spec) = (refs.len() as u64 * targets.len() as u64, nums.len() as u64 * 14, specials.len() as u64 * 4);
-    Table { refs, nums, targets, specials, n_ref, n_num, n_spec }
+    let arrays = array_sites();
+    let (n_ref, n_num, n_spec, n_arr) = (refs.len() as u64 * targets.len() as u64, nums.len() as u64 * 14, specials.len() as u64 * 4, arrays.len() as u64 * 5);
+    Table { refs, nums, targets, specials, arrays, n_ref, n_num, n_spec, n_arr }
 }
 impl Table {
-    pub fn enumerated(&self) -> u64 { self.n_ref + self.n_num + self.n_spec }
+    pub fn enumerated(&self) -> u64 { self.n_ref + self.n_num + self.n_spec + self.n_arr }
     pub fn case(&self, seed: u64, idx: u64, all_combos: bool) -> Case {
         // idx -> (base case, layout/cfg combination)
         let e = self.enumerated();
@@ -298,6 +310,14 @@ impl Table {
             let v = richdoc::boundary_obj((b % 14) as usize);
             let lab = format!("num:obj{}.{}={}", objs[*oi].0, richdoc::path_label(&objs[*oi].1, p), String::from_utf8_lossy(&mkpdf::obj_bytes(&v)));
             *richdoc::node_mut(&mut objs[*oi].1, p) = v;
+            Case { bytes: richdoc::write(&objs, layout, b""), password: vec![], cfg, labels: lab, deep: false }
+        } else if base >= self.n_ref + self.n_num + self.n_spec && base < e {
+            // every array-valued field with an unexpected number of elements
+            let b = base - self.n_ref - self.n_num - self.n_spec;
+            let (oi, p) = &self.arrays[(b / 5) as usize];
+            let k = (b % 5) as usize;
+            let lab = format!("arr:obj{}.{}:{}", objs[*oi].0, richdoc::path_label(&objs[*oi].1, p), richdoc::ARRAY_EDITS[k]);
+            richdoc::edit_array(richdoc::node_mut(&mut objs[*oi].1, p), k);
             Case { bytes: richdoc::write(&objs, layout, b""), password: vec![], cfg, labels: lab, deep: false }
         } else if base < e {
             let b = base - self.n_ref - self.n_num;
@@ -332,6 +352,7 @@ pub fn run(run: &Run) {
     run.add("enumerated_ref_repointings", t.n_ref);
     run.add("enumerated_boundary_numbers", t.n_num);
     run.add("special_documents_x4cfg", t.n_spec);
+    run.add("array_length_edits", t.n_arr);
     run.exhaustive("single reference re-pointing x all targets; single numeric field x 14 boundary values; special documents x 4 configurations", true);
     let seed = run.seed;
     crate::sup::run_cases(run, "C14", n, 50, &|idx| {
